@@ -149,8 +149,11 @@ def structure_ok(doc: str, spec: Dict[str, Any]) -> bool:
         return m is None
     if m is None:
         return False
-    if spec.get("lenient") or not spec["captured"]:
+    if spec.get("lenient"):
         return True
+    if not spec["captured"]:
+        # the generator's reason must be visible to plain marko too: first heading below level 1, or with markup
+        return int(m.group(1)) != 1 or "<" in m.group(2) or "{" in m.group(2)
     if int(m.group(1)) != 1 or "<" in m.group(2):
         return False
     return html.unescape(m.group(2)).strip() == html.unescape(spec["heading_plain"]).strip()
@@ -291,7 +294,7 @@ def heading_source(rng: random.Random, text: str, level: int) -> Tuple[List[str]
         return ["#" * level + " " + text], "atx"
     if k == 3:
         return [" " * rng.randrange(0, 4) + "#" * level + rng.choice([" ", "  ", "\t"]) + text + " " + "#" * rng.randrange(1, 4)], "atx-closed"
-    if k == 4 and " " in text and "\t" not in text:
+    if k == 4 and " " in text and "\t" not in text and text[text.index(" ") + 1: text.index(" ") + 2].isalnum():
         i = text.index(" ")
         return [text[:i], text[i + 1:], ("=" if level == 1 else "-") * 5], "setext-2-lines"
     return [text, ("=" if level == 1 else "-") * rng.randrange(1, 9)], "setext"
